@@ -32,6 +32,17 @@ def norm_report(d, root=None):
     return d
 
 
+def ordered_view(d):
+    """The orders a report carries: folder entries as listed, and the key order of files,
+    totals and tree (what a reader of the JSON text sees top to bottom)."""
+    try:
+        cb = d["codebase"]
+        return {"files": list(cb["files"]), "totals": list(cb["totals"]), "tree": list(cb["tree"]),
+                "entries": {k: list(v["entries"]) for k, v in cb["tree"].items()}}
+    except (KeyError, TypeError, AttributeError):
+        return None
+
+
 def diff_reports(a, b, limit=6):
     """Human-readable first differences between two normalised reports."""
     out = []
